@@ -127,6 +127,16 @@ func (w *c10World) apply(e string) {
 	case "rehs:b":
 		w.b.hm.StartHandshake(w.a.vpnIP, nil)
 		w.b.settle()
+	case "rehs:a@1969":
+		// a's clock reads 1969 while it builds the first message: the reported time (uint64 of a negative UnixNano) has its
+		// top bit set, i.e. it is NEWER than every ordinary time in the unsigned order the wire format defines
+		now := vtime.Now()
+		vtime.Set(vtime.Date(1969, 12, 31, 0, 0, 0, 0, vtime.UTC).Add(vtime.Duration(len(w.msgs)) * vtime.Second))
+		w.a.hm.StartHandshake(w.b.vpnIP, nil)
+		w.a.settle()
+		w.net.collect()
+		w.record()
+		vtime.Set(now)
 	case "lost:a":
 		// a starts a handshake whose first message is lost in transit, then gives the attempt up (as its timeout would);
 		// the message stays recorded and may arrive (be replayed) at any later point
@@ -233,7 +243,7 @@ func TestVerifC10(t *testing.T) {
 				w.apply(e)
 			}
 			key := w.key()
-			menu := []string{"rehs:a", "adv", "lost:a", "rehs:b", "cm:b"}
+			menu := []string{"rehs:a", "adv", "lost:a", "rehs:b", "cm:b", "rehs:a@1969"}
 			if checked[key] {
 				return key, menu
 			}
@@ -303,7 +313,7 @@ func TestVerifC10(t *testing.T) {
 							}
 							continue
 						}
-						if uint64(mg.created) <= primary.lastHandshakeTime {
+						if uint64(mg.created) <= uint64(primary.lastHandshakeTime) { // (conversions: the field's integer type is the implementation's business)
 							oldReplays++
 							if after != before {
 								c.Violation("C10: a first message not newer than the responder-accepted primary replaced or added a tunnel", detail)
